@@ -140,6 +140,13 @@ func init() {
 		// symbolic value is an unknown in [0, 255].
 		bl := m.in.UF("bitlen", SInt, a)
 		m.addPC(m.in.And(m.in.Le(m.in.I64(0), bl), m.in.Le(bl, m.in.I64(255))))
+		// thresholds tie the unknown to the value: |x| < 2^k  =>  BitLen <= k, |x| >= 2^k => BitLen > k
+		for _, k := range []uint{1, 32, 64, 100, 128, 192} {
+			lim := m.in.Int(new(big.Int).Lsh(big.NewInt(1), k))
+			below := m.in.Lt(a, lim)
+			m.addPC(m.in.Or(m.in.Not(below), m.in.Le(bl, m.in.I64(int64(k)))))
+			m.addPC(m.in.Or(below, m.in.Gt(bl, m.in.I64(int64(k)))))
+		}
 		return bl
 	})
 	reg(B+"Bit", func(m *Machine, fn *ssa.Function, args []Value) Value {
